@@ -234,6 +234,11 @@ def map_jobs(rng, thorough):
                                 prog = inner_graph(kind, mapped, [item_names(mapped[0], lens[0])[i] for i in fail_idx],
                                                    [item_names(mapped[0], lens[0])[i] for i in branch_idx])
                                 prog["name"] = "top"
+                                seltag = ""
+                                if kind in ("multi", "chain") and rng.random() < 0.5:
+                                    # the mapped graph carries a graph-level selection: every item returns exactly the selected outputs
+                                    prog["selected"] = ["p"] if kind == "multi" else ["q"]
+                                    seltag = "/selected"
                                 lists, provided = [], [["b", "in.b"]]
                                 for p, n in sorted(zip(mapped, lens)):      # the caller's dict lists the names alphabetically, whatever map_over says
                                     items = item_names(p, n)
@@ -241,7 +246,7 @@ def map_jobs(rng, thorough):
                                     provided.append([p, list_text(items)])
                                 j = gen.job(0, prog, provided, mode=runner_mode, lists=lists)
                                 j["map"] = {"over": list(mapped), "mode": mode_map, "eh": eh}
-                                jobs.append((j, f"runner.map/{kind}/{'+'.join(mapped)}/{mode_map}/{lens}/{eh}/fail{fail_idx}"))
+                                jobs.append((j, f"runner.map/{kind}/{'+'.join(mapped)}/{mode_map}/{lens}/{eh}/fail{fail_idx}{seltag}"))
     return jobs
 
 
